@@ -437,6 +437,11 @@ void Polygon::apply_repetition(Array<Polygon*>& result) {
 
     // Skip first offset (0, 0)
     Vec2* offset_p = offsets.items + 1;
+    if (offsets.count < 2) {
+        // Empty lattice (0 columns or rows) or no extra offsets: nothing to copy
+        offsets.clear();
+        return;
+    }
     result.ensure_slots(offsets.count - 1);
     for (uint64_t offset_count = offsets.count - 1; offset_count > 0; offset_count--) {
         Polygon* poly = (Polygon*)allocate_clear(sizeof(Polygon));
